@@ -95,13 +95,14 @@ Fixpoint build (off : N) (kk : list bytes) (vv : list V) : bytes * list item * r
   match kk with
   | [] => ([], [], Ok tt)
   | k :: kk' =>
-    if max_uint32 <? len k then ([], [], Err 2)        (* "key too large": returns mid-way *)
-    else match vv with
-         | [] => ([], [], Panic 2)                         (* vv[i] out of range *)
-         | v :: vv' =>
-           let '(d, its, r) := build (off + len k) kk' vv' in
-           (k ++ d, mkitem off (len k mod two32) (hash k mod two32) v :: its, r)
-         end
+    (* the "key too large" test is made by the caller's first loop, before anything is reset
+       (since the repair of /repo: it used to sit here and return mid-way, after the reset) *)
+    match vv with
+    | [] => ([], [], Panic 2)                         (* vv[i] out of range *)
+    | v :: vv' =>
+      let '(d, its, r) := build (off + len k) kk' vv' in
+      (k ++ d, mkitem off (len k mod two32) (hash k mod two32) v :: its, r)
+    end
   end.
 
 (* m.items[i].slot = m.items[i].slot % uint32(slots) *)
@@ -152,6 +153,7 @@ Definition total_len (kk : list bytes) : N := fold_left (fun a k => a + len k) k
 (* LoadFromSlice(kk, vv): the state after the call and its outcome (Ok tt = nil error). *)
 Definition load (st : strmap) (kk : list bytes) (vv : list V) : strmap * res unit :=
   if negb (len kk =? len vv) then (st, Err 1)                       (* "kv len not match" *)
+  else if existsb (fun k => max_uint32 <? len k) kk then (st, Err 2) (* "key too large", nothing touched yet *)
   else
     let backing := table st ++ tspare st in                         (* m.hashtable[:0] keeps the array *)
     let sz := total_len kk in
